@@ -40,7 +40,7 @@ package h2
 // C09: exact credit.
 
 //@ func (*relay).sendWindowUpdates
-//@   serves C09
+//@   serves C09 C10
 //@   requires r != nil && f != nil && r.dest != nil && !r.destMu.held
 //@   modifies wuN, wuStreamAt, wuIncrAt, r.destMu.held
 //@   ensures[no-credit-for-empty-frame] f.Length == 0 ==> wuN == old(wuN)
@@ -666,3 +666,5 @@ package h2
 //@   noframe
 //@   loop 0 invariant r != nil && r.peer != nil && relayReady(r) && relayReady(r.peer) && contInv(r)
 //@   at call 0 of processFrame before assume ref(arg0) != nil
+//@   at select 0 before assert[reader-stops-on-shutdown-and-on-a-write-error] waitsOn(closing) && waitsOn(writerErr)
+//@   at recv all before assert[no-blocking-receive-outside-the-select] false
